@@ -2444,3 +2444,127 @@ func c06r18(rc *core.RC) {
 		rc.Unknown("library/lock-sites", token.NoPos, "found %d Lock/RLock statements in this configuration, fewer than the 2 confirmed by hand", n)
 	}
 }
+
+// ---- C06.R20 what the cast helpers hand to reflect's Set fits the destination ----
+
+// Path.Unmarshal and Path.Get store what a path selected through reflect: AssignValue and the cast helpers of
+// assign.go build a value for the destination's type and call Value.Set / SetMapIndex. Set panics unless the value's
+// type is assignable to the destination's: a helper that casts by kind (int for every integer kind, the source slice
+// for an array) panics for `type Celsius float64`, for an array, for a named slice. Obligations: every value handed to
+// Set or SetMapIndex in assign.go is the result of castValue for the type of the place it is stored in; and
+// castValue returns a value only behind a test that its type is assignable to the wanted type, or converted to it.
+func c06r20(rc *core.RC) {
+	p := rc.P
+	pk := p.Pkg("decoder")
+	if pk == nil {
+		return
+	}
+	info := pk.TypesInfo
+	nset := 0
+	for _, fd := range p.Funcs("decoder") {
+		if fd.Body == nil || p.FileBase(fd.Pos()) != "assign.go" {
+			continue
+		}
+		k := 0
+		ast.Inspect(fd.Body, func(m ast.Node) bool {
+			call, ok := m.(*ast.CallExpr)
+			if !ok {
+				return true
+			}
+			cn := core.CalleeName(info, call)
+			if cn != "reflect.Value.Set" && cn != "reflect.Value.SetMapIndex" {
+				return true
+			}
+			nset++
+			k++
+			rc.Touch(p.FuncName(fd))
+			key := fmt.Sprintf("%s/%s#%d value-from-castValue", p.FuncName(fd), strings.TrimPrefix(cn, "reflect.Value."), k)
+			bad := ""
+			for _, a := range call.Args {
+				obj := core.ObjOf(info, a)
+				if obj == nil {
+					bad = core.Src(p.Fset, a)
+					break
+				}
+				// every definition of the local is the first result of a castValue call
+				defs, good := 0, 0
+				ast.Inspect(fd.Body, func(q ast.Node) bool {
+					as, isAs := q.(*ast.AssignStmt)
+					if !isAs {
+						return true
+					}
+					for li, l := range as.Lhs {
+						if core.ObjOf(info, l) != obj {
+							continue
+						}
+						defs++
+						if li == 0 && len(as.Rhs) == 1 {
+							if c, isCall := core.Unparen(as.Rhs[0]).(*ast.CallExpr); isCall && core.CalleeName(info, c) == "decoder.castValue" {
+								good++
+							}
+						}
+					}
+					return true
+				})
+				if defs == 0 || defs != good {
+					bad = core.Src(p.Fset, a)
+					break
+				}
+			}
+			if bad == "" {
+				rc.OK(key, call.Pos(), "every value stored is a result of castValue")
+			} else {
+				rc.Bad(key, call.Pos(), "%s is stored with reflect's %s and is no result of castValue: when its type is not assignable to the place (a named type, an array for a slice, a field the other struct lacks) the call panics, in Path.Unmarshal and Path.Get", bad, strings.TrimPrefix(cn, "reflect.Value."))
+			}
+			return true
+		})
+	}
+	if nset < 6 {
+		rc.Unknown("decoder/assign.go/Set-sites", token.NoPos, "found %d calls of Set / SetMapIndex in assign.go, fewer than the 6 confirmed by hand", nset)
+	}
+	fd := p.Func("decoder", "castValue")
+	if fd == nil || fd.Body == nil {
+		rc.Unknown("decoder.castValue/result-fits-the-type", token.NoPos, "castValue not found")
+		return
+	}
+	rc.Touch(p.FuncName(fd))
+	nret := 0
+	for _, r := range core.BuildCFGFor(fd, info).Returns() {
+		if len(r.Results) != 2 {
+			continue
+		}
+		if o := core.ObjOf(info, r.Results[0]); o != nil && o.Name() == "nilValue" {
+			continue
+		}
+		nret++
+		key := fmt.Sprintf("decoder.castValue/return#%d result-fits-the-type", nret)
+		res := core.Unparen(r.Results[0])
+		ok := false
+		why := ""
+		if c, isCall := res.(*ast.CallExpr); isCall && core.CalleeName(info, c) == "reflect.Value.Convert" {
+			ok, why = true, "converted to the wanted type"
+		}
+		for _, anc := range core.PathTo(fd.Body, r) {
+			ifs, isIf := anc.(*ast.IfStmt)
+			if !isIf || !(ifs.Body.Pos() <= r.Pos() && r.End() <= ifs.Body.End()) {
+				continue
+			}
+			ast.Inspect(ifs.Cond, func(q ast.Node) bool {
+				if c, isCall := q.(*ast.CallExpr); isCall {
+					if cn := core.CalleeName(info, c); cn == "reflect.Type.AssignableTo" || cn == "reflect.Type.ConvertibleTo" {
+						ok, why = true, "behind "+core.Src(p.Fset, ifs.Cond)
+					}
+				}
+				return true
+			})
+		}
+		if ok {
+			rc.OK(key, r.Pos(), "%s", why)
+		} else {
+			rc.Bad(key, r.Pos(), "castValue returns %s without a test that its type is assignable to the wanted type: the caller hands it to reflect's Set, which panics for a destination of a named type (type Celsius float64), an array, a named slice", core.Src(p.Fset, res))
+		}
+	}
+	if nret < 2 {
+		rc.Unknown("decoder.castValue/returns", fd.Pos(), "found %d returns of a value in castValue, fewer than the 2 confirmed by hand", nret)
+	}
+}
